@@ -81,6 +81,8 @@ def run_data(ctx, case):
             s['data'] = W.enc_chdr(cls, le, ch_type, ch_size, align, s.pop('ch_reserved', 0)) + stream
             s['sh_flags'] = s.get('sh_flags', 0) | 0x800
             e = {'kind': 'z', 'variant': variant, 'payload': payload, 'ch_size': ch_size, 'align': align}
+            if s.get('sh_type', 1) != 1:
+                e['typed'] = s['sh_type']
         elif kind == 'nobits':
             s['data'] = b''
             s['sh_type'] = 8
@@ -124,6 +126,8 @@ def run_data(ctx, case):
         else:
             nt = True
             ctx.count('sec.z.' + e['variant'])
+            if e.get('typed'):
+                ctx.count('sec.z.specialised-type')
             inflated = None
             if e['variant'] == 'trunc':
                 # a stream cut inside its trailer still inflates completely: only a size disagreement must be rejected
@@ -255,7 +259,10 @@ def build_data(ch, tier):
             plen = ch.choice([0, 1, 63, 64, 100, ch.int(0, 3000), ch.int(0, 20000 if tier == 'quick' else 262144)])
             mode = ch.int(0, 2)
             payload = ch.bytes(plen) if mode == 0 or plen < 8 else (ch.bytes(7) * (plen // 7 + 1))[:plen] if mode == 1 else bytes(plen)
-            s = {'ck': 'z', 'name': ch.choice(['.debug_info', '.debug_str', '.zz%d' % len(secs)]), 'sh_type': 1, 'sh_flags': ch.choice([0, 0, 0x30]),
+            # any section may be stored compressed, also those for which the library has a specialised class (the stored size then has
+            # nothing to do with the entry size; the logical size comes from the compression header)
+            ztype, zent = ch.choice([(1, 0), (1, 0), (1, 0), (9, 8 if cls == 32 else 16), (4, 12 if cls == 32 else 24), (19, cls // 8), (7, 0), (14, cls // 8)])
+            s = {'ck': 'z', 'name': ch.choice(['.debug_info', '.debug_str', '.zz%d' % len(secs)]), 'sh_type': ztype, 'sh_entsize': zent, 'sh_flags': ch.choice([0, 0, 0x30]),
                  'payload': payload, 'level': ch.int(0, 9), 'splits': [ch.int(0, max(plen, 1)) for _ in range(ch.int(0, 3))],
                  'ch_addralign': ch.choice([0, 1, 4, 8, 1 << 20, (1 << cls) - 1]), 'sh_addralign': ch.choice([1, 4, 8]),
                  'ch_reserved': ch.choice([0, 0, 0xdeadbeef])}
@@ -792,7 +799,7 @@ def sweep(tier):
 
 def floors(ctx):
     c = ctx.counters
-    need = ['far.files', 'legacy-locale.files', 'legacy-locale.fsenc.ascii', 'sec.raw', 'sec.nobits', 'sec.z.ok', 'sec.z.short', 'sec.z.long', 'sec.z.trunc', 'sec.z.badtype', 'str.query.chunk+',
+    need = ['far.files', 'sec.z.specialised-type', 'legacy-locale.files', 'legacy-locale.fsenc.ascii', 'sec.raw', 'sec.nobits', 'sec.z.ok', 'sec.z.short', 'sec.z.long', 'sec.z.trunc', 'sec.z.badtype', 'str.query.chunk+',
             'seg.interp', 'seg.data', 'addr.query.boundary', 'addr.query.hit', 'addr.query.miss', 'addr.query.multi', 'inseg.pairs.boundary']
     out = ['no case of class ' + k for k in need if c[k] == 0]
     if c['inseg.pairs'] < 5000:
